@@ -210,6 +210,11 @@ pub open spec fn temp_extend(w: World, k: SV, threshold: u32, extend_to: u32) ->
 }
 
 
+// ---- shared world transformers (ghost) ----
+pub open spec fn w_auth(w: World, a: Address) -> World { World { auths: w.auths.insert(a), ..w } }
+pub open spec fn w_event(w: World, ev: SV) -> World { World { events: w.events.push(ev), ..w } }
+pub open spec fn w_auth_args(w: World, a: Address, args: Seq<SV>) -> World { World { auth_args: w.auth_args.insert((a, args)), ..w } }
+
 // ---- typed-key layer over the three stores: reads and writes by a key of an encodable type ----
 pub open spec fn iget<K: ToSV>(w: World, k: K) -> Option<SV> { if w.instance.contains_key(k.sv()) { Some(w.instance[k.sv()]) } else { None } }
 pub open spec fn iset<K: ToSV>(w: World, k: K, v: SV) -> World { World { instance: w.instance.insert(k.sv(), v), ..w } }
